@@ -51,6 +51,24 @@ def table(enc, tbl):
     raise ValueError(tbl)
 
 
+REALM_B = 'Admin'        # the realm of an independent second protection domain
+PW_B = {'root': 'S3cr3t!'}   # its user table: no entry for alice, carol or mallory
+
+
+def domain(enc, tbl, dom):
+    """(realm, users) of the protection domain a check is configured for.
+    dom: "same" = the domain the credential classes are described for;
+    "tbl" = same realm, another user table; "realm" = another realm, same
+    table; "both"."""
+    realm = REALM_B if dom in ('realm', 'both') else REALM
+    if dom in ('tbl', 'both'):
+        d = {u: (p if enc == 'plain' else md5hex(p)) for u, p in PW_B.items()}
+        users = d if tbl == 'dict' else (lambda: dict(d)) if tbl == 'fdict' else (lambda username: d.get(username))
+    else:
+        users = table(enc, tbl)
+    return realm, users
+
+
 def encrypt_of(enc):
     """encrypt=str with a clear-text table (tests/web/test_basicauth.py), or the
     default (None: md5) with a table of md5 hex digests (examples/web/authdemo.py)."""
